@@ -21,10 +21,9 @@ on the implementation by harness/props/c07.py.
 
 Text is `List Char`. Core Lean only.
 -/
+import Capella.Model.PodsTable
 
 namespace Capella.Pods
-
-abbrev Str := List Char
 
 /-! ## lxml attribute map -/
 
@@ -49,14 +48,6 @@ def set : Attrs → Str → Str → Attrs
 def pop (a : Attrs) (k : Str) : Attrs := a.filter (fun p => !decide (p.1 = k))
 
 end Attrs
-
-/-- characters lxml accepts in attribute values / text (`_utf8`, `valid_xml_utf8`):
-TAB, LF, CR and everything from U+0020 except U+FFFE/U+FFFF (surrogates are not `Char`s). -/
-def xmlChar (c : Char) : Bool :=
-  let n := c.toNat
-  n == 9 || n == 10 || n == 13 || (decide (32 ≤ n) && n != 0xFFFE && n != 0xFFFF)
-
-def xmlOk (s : Str) : Bool := s.all xmlChar
 
 /-! ## Python exceptions that can leave a descriptor -/
 
@@ -121,35 +112,6 @@ inductive PyVal (P : Params)
   /-- any other object -/
   | other
 
-/-! ## Descriptors -/
-
-structure EnumCls where
-  name : Str
-  /-- `_StringyEnumMixin`: members compare equal to their name -/
-  stringy : Bool
-  /-- `enumcls.__members__`: (name, value) in declaration order (no aliases: `@enum.unique`) -/
-  members : List (Str × Str)
-deriving DecidableEq, Repr
-
-inductive Kind
-  | string | html | bool | int | float | datetime
-  | enum (cls : EnumCls) (default : Str)      -- default member's name
-  | selector
-  | other (name : Str)
-deriving DecidableEq, Repr
-
-structure Desc where
-  kind : Kind
-  attr : Str
-  writable : Bool
-deriving DecidableEq, Repr
-
-def EnumCls.byName (e : EnumCls) (n : Str) : Option Str :=
-  (e.members.find? (fun m => m.1 = n)).map (·.2)
-
-def EnumCls.byValue (e : EnumCls) (v : Str) : Option Str :=
-  (e.members.find? (fun m => m.2 = v)).map (·.1)
-
 /-- `self.default` (hard-coded by each POD class; the enum default comes from the table) -/
 def defaultVal (P : Params) (d : Desc) : PyVal P :=
   match d.kind with
@@ -204,17 +166,18 @@ def digitsOk : Str → Bool
   | c :: '_' :: r => c.isDigit && digitsOk r
   | c :: r => c.isDigit && digitsOk r
 
-def pyIntParse (s : Str) : Option Int :=
-  let t := strip s
-  let (neg, body) : Bool × Str :=
-    match t with
-    | '-' :: r => (true, r)
-    | '+' :: r => (false, r)
-    | r => (false, r)
+/-- the digits after the optional sign -/
+def parseSigned (neg : Bool) (body : Str) : Option Int :=
   if digitsOk body then
     let n : Nat := Nat.ofDigitChars 10 (body.filter (fun c => c != '_')) 0
     some (if neg then - (n : Int) else (n : Int))
   else none
+
+def pyIntParse (s : Str) : Option Int :=
+  match strip s with
+  | '-' :: r => parseSigned true r
+  | '+' :: r => parseSigned false r
+  | r => parseSigned false r
 
 /-! ## The two regular expressions of `DatetimePOD` -/
 
@@ -454,57 +417,80 @@ def specDel (s : Spec) (k : Str) : Except Err Spec :=
 
 end Capella.Pods
 
-/-! ## Rows of the generated descriptor table (`Capella/Gen/Pods*.lean`) -/
+/-! ## Specification-level definitions used by the theorems (`Props/C07.lean`) -/
 
 namespace Capella.Pods
 
-/-- the descriptor's `default` as found on the live object -/
-inductive DefaultLit
-  | emptyStr | emptyMarkup | false | zeroInt | zeroFloat | none | selectorEmpty
-  | member (name : Str)
-  | other (repr : String)
-deriving DecidableEq, Repr
+/-- where `re_get` undoes `re_set`: either `re_set` matches, or `re_get` does not -/
+def IsoShape (s : Str) : Prop := reSet s ≠ s ∨ reGet s = s
 
-structure Row where
-  /-- qualified name of the registered model class (label) -/
-  cls : String
-  /-- attribute name on the Python class (label) -/
-  pyname : String
-  /-- class that declares the descriptor (label) -/
-  owner : String
-  desc : Desc
-  default : DefaultLit
-deriving DecidableEq, Repr
+/-- What the theorems assume about CPython and libxml2 (sampled on the implementation). -/
+structure Params.Lawful (P : Params) : Prop where
+  /-- `float(str(x)) == x` for finite `x` -/
+  float_rt : ∀ x, P.fParse (P.fRepr x) = some (.fin x)
+  /-- `str(x)` is never `"*"` and is XML-legal -/
+  float_ne_star : ∀ x, P.fRepr x ≠ star
+  float_xml : ∀ x, xmlOk (P.fRepr x) = true
+  zero_isZero : P.fIsZero P.fZero = true
+  /-- `float(i) == 0.0` iff `i == 0` -/
+  ofInt_zero : ∀ i x, P.fOfInt i = some x → P.fIsZero x = decide (i = 0)
+  /-- `fromisoformat(isoformat(t, ms))` is `t` cut to milliseconds -/
+  iso_rt : ∀ t, P.fromIso (P.iso t) = some (.inr (P.truncMs t))
+  iso_shape : ∀ t, IsoShape (P.iso t)
+  iso_xml : ∀ t, xmlOk (P.iso t) = true
+  trunc_idem : ∀ t, P.truncMs (P.truncMs t) = P.truncMs t
+  /-- HTML repair is idempotent and keeps the empty string -/
+  repair_idem : ∀ s r, P.repair s = some r → P.repair r = some r
+  repair_nil : P.repair [] = some []
 
-def allDistinct : List Str → Bool
-  | [] => true
-  | x :: r => !r.contains x && allDistinct r
+/-- an HTML value is usable iff `repair_html` accepts it and lxml accepts the result -/
+def htmlValid (P : Params) (s : Str) : Bool :=
+  match P.repair s with | some r => xmlOk r | none => false
 
-def EnumCls.wf (e : EnumCls) : Bool :=
-  !e.members.isEmpty && allDistinct (e.members.map (·.1)) && allDistinct (e.members.map (·.2)) &&
-  e.members.all (fun m => xmlOk m.2) && e.stringy
-
-/-- what the model assumes about a row: known kind, the default the POD class hard-codes,
-a usable XML attribute name, and a well-formed enum. -/
-def Row.wf (r : Row) : Bool :=
-  !r.desc.attr.isEmpty &&
-  match r.desc.kind, r.default with
-  | .string, .emptyStr => true
-  | .html, .emptyMarkup => true
-  | .bool, .false => r.desc.writable
-  | .int, .zeroInt => true
-  | .float, .zeroFloat => true
-  | .datetime, .none => true
-  | .selector, .selectorEmpty => r.desc.writable
-  | .enum e n, .member m => decide (n = m) && e.wf && (e.byName n).isSome
+/-- the value domain of a descriptor (`None` = delete is always allowed) -/
+def valid (P : Params) (d : Desc) (v : PyVal P) : Bool :=
+  match d.kind, v with
+  | _, .none => true
+  | .string, .str s => xmlOk s
+  | .html, .str s => htmlValid P s
+  | .bool, .bool _ => true
+  | .int, .int _ => true
+  | .int, .bool _ => true
+  | .float, .float (.inf) => true
+  | .float, .float (.fin _) => true
+  | .float, .int i => (P.fOfInt i).isSome
+  | .float, .bool b => (P.fOfInt (if b then 1 else 0)).isSome
+  | .datetime, .aware _ => true
+  | .datetime, .naive n => (P.localize n).isSome
+  | .enum e _, .member c n x => decide (c = e.name) && decide (e.byName n = some x)
+  | .enum e _, .str s => (e.byName s).isSome
+  | .selector, .selector r => xmlOk r
+  | .selector, .str s => xmlOk s
   | _, _ => false
 
-/-- no two descriptor slots of one class share an XML attribute -/
-def slotsDistinct (rows : List Row) : Bool :=
-  let keys := rows.map (fun r => (r.cls, r.desc.attr))
-  let rec go : List (String × Str) → Bool
-    | [] => true
-    | x :: r => !r.contains x && go r
-  go keys
+/-- the value a valid input stands for: what reading back must return -/
+def denote (P : Params) (d : Desc) (v : PyVal P) : PyVal P :=
+  match d.kind, v with
+  | _, .none => defaultVal P d
+  | .html, .str s => .str ((P.repair s).getD [])
+  | .int, .bool b => .int (if b then 1 else 0)
+  | .float, .int i => match P.fOfInt i with | some x => .float (.fin x) | none => v
+  | .float, .bool b => match P.fOfInt (if b then 1 else 0) with | some x => .float (.fin x) | none => v
+  | .datetime, .aware t => .aware (P.truncMs t)
+  | .datetime, .naive n => match P.localize n with | some t => .aware (P.truncMs t) | none => v
+  | .enum e _, .str s => .member e.name s ((e.byName s).getD [])
+  | .selector, .str s => .selector s
+  | _, _ => v
+
+/-- Python `==` on read-back values as far as it differs from identity: `0.0 == -0.0`. -/
+def Same (P : Params) (a b : PyVal P) : Prop :=
+  a = b ∨ ∃ x y, a = .float (.fin x) ∧ b = .float (.fin y) ∧ P.fIsZero x = true ∧ P.fIsZero y = true
+
+/-- what the theorems need of a descriptor (implied by `Row.wf`) -/
+def Desc.wf (d : Desc) : Bool :=
+  match d.kind with
+  | .enum e n => e.wf && (e.byName n).isSome
+  | .other _ => false
+  | _ => true
 
 end Capella.Pods
